@@ -42,22 +42,60 @@ fn kind_of(t: &str) -> &str {
 
 /// the part of a response that property `prop` depends on; model and implementation are compared on it
 pub fn project(prop: &str, line: &str, out: &str) -> String {
+    let out = &strip_unpinned(prop, out);
+    project_inner(prop, line, out)
+}
+
+/// Details of error values that no property pins down are not compared with the model (a change of them is
+/// not a reason for an alarm; where a property relates them across front-ends or parsers - C09, C15 - the
+/// oracle compares implementation with implementation): the diagnostic fields of `InvalidMessage`
+/// (`inv:<read>:<calc>:<misaligned>:<pad>:<badpad>` -> `inv`), and the kind of a parse error
+/// (`perr:<kind>` -> `perr`; for C09 also `err:<kind>` -> `err`).
+fn strip_unpinned(prop: &str, out: &str) -> String {
+    let mut res = String::with_capacity(out.len());
+    let mut first = true;
+    for t in out.split(' ') {
+        if !first {
+            res.push(' ');
+        }
+        first = false;
+        if let Some(pos) = t.find("inv:") {
+            if pos == 0 || t[..pos].ends_with(':') {
+                res.push_str(&t[..pos]);
+                res.push_str("inv");
+                continue;
+            }
+        }
+        if t.starts_with("perr:") {
+            res.push_str("perr");
+            continue;
+        }
+        if prop == "C09" && t.starts_with("err:") {
+            res.push_str("err");
+            continue;
+        }
+        res.push_str(t);
+    }
+    res
+}
+
+fn project_inner(prop: &str, line: &str, out: &str) -> String {
     let op = line.split(' ').next().unwrap_or("");
     match prop {
         // soundness: only the delivered payloads and where they were delivered
         "C02" => match op {
-            "dec" => dec_events(out).into_iter().filter(|(_, e)| e.starts_with("ok:")).map(|(i, e)| format!("{}:{}", i, e)).collect::<Vec<_>>().join(" "),
+            "dec" | "decf" => dec_events(out).into_iter().filter(|(_, e)| e.starts_with("ok:")).map(|(i, e)| format!("{}:{}", i, e)).collect::<Vec<_>>().join(" "),
             _ => items(out).into_iter().filter(|e| e.starts_with("ok:")).collect::<Vec<_>>().join(" "),
         },
         // totality: which calls returned which kind of result (values are other properties' business)
         "C05" => match op {
-            "dec" => dec_events(out).into_iter().map(|(i, e)| format!("{}:{}", i, kind_of(&e))).collect::<Vec<_>>().join(" "),
+            "dec" | "decf" => dec_events(out).into_iter().map(|(i, e)| format!("{}:{}", i, kind_of(&e))).collect::<Vec<_>>().join(" "),
             "enc" | "enci" => out.to_string(),
             _ => out.split(' ').map(|t| kind_of(t).to_string()).collect::<Vec<_>>().join(" "),
         },
         // byte accounting: positions and counts of discarded-bytes reports, boundaries
         "C17" => match op {
-            "dec" => dec_events(out)
+            "dec" | "decf" => dec_events(out)
                 .into_iter()
                 .map(|(i, e)| if e.starts_with("ok:") { format!("{}:ok", i) } else if e.starts_with("inv:") { format!("{}:inv", i) } else { format!("{}:{}", i, e) })
                 .collect::<Vec<_>>()
@@ -306,7 +344,7 @@ fn tile_check(events: &[(usize, String)]) -> Result<(), String> {
 fn oracle_c17(case: &Case, outs: &[ImplRes]) -> Result<(), String> {
     for (line, o) in case.lines.iter().zip(outs) {
         let toks: Vec<&str> = line.split(' ').collect();
-        if toks[0] == "dec" {
+        if toks[0] == "dec" || toks[0] == "decf" {
             tile_check(&dec_events(o.text))?;
         } else if toks[0] == "rdr" {
             // reader: reconstruct positions from the event tokens
